@@ -880,6 +880,173 @@ Qed.
 Theorem lin_well_formed progs s : awf_run a0 (lin_ops (run (c_new a0 I progs) s)) = true.
 Proof. apply WI_run; [apply GI_new | apply LI_new | reflexivity]. Qed.
 
+(* (d), results: every thread received exactly the results the sequential
+   replay returns for its operations *)
+
+Fixpoint trun (a : astate) (l : list (nat * aop)) : astate * list (nat * aout) :=
+  match l with
+  | [] => (a, [])
+  | (n, o) :: l' =>
+      let '(a1, out) := astep true a o in
+      let '(a2, outs) := trun a1 l' in (a2, (n, out) :: outs)
+  end.
+
+Lemma trun_cons a n o l :
+  trun a ((n, o) :: l) =
+  (fst (trun (fst (astep true a o)) l), (n, snd (astep true a o)) :: snd (trun (fst (astep true a o)) l)).
+Proof. cbn [trun]. destruct (astep true a o) as [a1 out]. cbn [fst snd]. destruct (trun a1 l). reflexivity. Qed.
+
+Lemma trun_arun l : forall a,
+  fst (trun a l) = fst (arun true a (map snd l)) /\ map snd (snd (trun a l)) = snd (arun true a (map snd l)).
+Proof.
+  induction l as [|[n o] l IH]; intros a; [split; reflexivity|].
+  cbn [map snd]. rewrite trun_cons, arun_cons. cbn [fst snd map].
+  destruct (IH (fst (astep true a o))) as [E1 E2]. rewrite E1, E2. auto.
+Qed.
+
+Lemma trun_snoc l : forall a n o,
+  snd (trun a (l ++ [(n, o)])) = snd (trun a l) ++ [(n, snd (astep true (fst (trun a l)) o))].
+Proof.
+  induction l as [|[m o'] l IH]; intros a n o.
+  - cbn [app]. rewrite trun_cons. cbn [trun fst snd app]. reflexivity.
+  - cbn [app]. rewrite !trun_cons. cbn [fst snd app]. rewrite IH. reflexivity.
+Qed.
+
+(* the results the replay returns to thread [k] *)
+Definition thread_results (k : nat) (l : list (nat * aop)) : list aout :=
+  map snd (filter (fun p => Nat.eqb (fst p) k) (snd (trun a0 l))).
+
+Lemma thread_results_snoc k l n o :
+  thread_results k (l ++ [(n, o)]) =
+  thread_results k l ++ (if Nat.eqb n k then [snd (astep true (fst (trun a0 l)) o)] else []).
+Proof.
+  unfold thread_results. rewrite trun_snoc, filter_app, map_app. cbn [filter fst].
+  destruct (Nat.eqb n k); reflexivity.
+Qed.
+
+(* the part of a thread's outputs that comes from the allocator *)
+Definition lin_out (o : cout) : list aout :=
+  match o with
+  | OHandle e => [AHandle e]
+  | OKill e r => [AKillDefRes r]
+  | OAlive e b => [ABool b]
+  | _ => []
+  end.
+
+(* the result of a creation that has linearised but not returned yet *)
+Definition pending_of (p : pc) : list aout :=
+  match p with
+  | PRead x => match pv_get (cache a0) (x - 1) with Some id => [AHandle (id, join_gen a0 id)] | None => [] end
+  | PRaise id | PGen id => [AHandle (id, join_gen a0 id)]
+  | _ => []
+  end.
+
+Definition tres (t : thread) : list aout := flat_map lin_out (outs t) ++ pending_of (tpc t).
+
+Lemma pending_after_len p : pending_of (after_len p) = [].
+Proof. unfold after_len. destruct (N.eqb p 0); reflexivity. Qed.
+
+Lemma flat_map_snoc {A B} (f : A -> list B) l x : flat_map f (l ++ [x]) = flat_map f l ++ f x.
+Proof. rewrite flat_map_app. cbn [flat_map]. rewrite app_nil_r. reflexivity. Qed.
+
+Lemma LIr_join_gen a b F i : LIr a b F -> join_gen b i = join_gen a0 i.
+Proof. intros HL. unfold join_gen, gen_at. rewrite (li_gens _ _ _ HL). reflexivity. Qed.
+
+Lemma LIr_err_gen a b F i : LIr a b F -> err_gen b i = err_gen a0 i.
+Proof. intros HL. unfold err_gen, gen_at. rewrite (li_gens _ _ _ HL). reflexivity. Qed.
+
+Lemma tstep_res a q t a' q' t' ev b F : G a -> TI a t -> tstep I a q t = (a', q', t', ev) -> LIr a b F ->
+  tres t' = tres t ++ match ev with Some o => [snd (astep true b o)] | None => [] end.
+Proof.
+  intros [Ha Hst] Ht H HL. unfold tres.
+  tstep_cases H; unf; rewrite ?flat_map_snoc, ?pending_after_len; cbn [lin_out pending_of];
+    rewrite ?app_nil_r; try reflexivity.
+  - (* nothing to run *) rewrite Epc. cbn [pending_of]. rewrite app_nil_r. reflexivity.
+  - (* delete, Err *)
+    pose proof (resolve_good _ _ _ _ Ha Ht Eres) as Hg.
+    cbn [astep]. unfold a_kill_atomic. rewrite (alive_transfer _ _ _ _ Ha HL Hg), Eal. cbn [snd].
+    rewrite (LIr_err_gen _ _ _ _ HL), (ale_err_gen _ _ _ Ha). reflexivity.
+  - (* is_alive *)
+    pose proof (resolve_good _ _ _ _ Ha Ht Eres) as Hg.
+    cbn [astep snd]. rewrite (alive_transfer _ _ _ _ Ha HL Hg). reflexivity.
+  - (* CAS on len succeeds *)
+    pose proof (ti_dec _ _ Ht _ Epc) as Hp. destruct (i0_get H0 (clen a) Hp) as [id [Hg Hlt]].
+    cbn [astep]. rewrite Hg.
+    rewrite (alloc_atomic_pop b id); [| rewrite (li_clen _ _ _ HL); lia
+                                       | rewrite (li_clen _ _ _ HL), (li_cache _ _ _ HL); assumption].
+    cbn [snd]. rewrite (LIr_join_gen _ _ _ _ HL). reflexivity.
+  - (* cache read *)
+    rewrite <- (le_cache _ _ Ha), Eget. reflexivity.
+  - (* out of bounds: impossible *)
+    exfalso. pose proof (ti_read _ _ Ht _ Epc) as Hx. destruct (i0_get H0 x) as [id [Hg _]]; [lia|].
+    rewrite (le_cache _ _ Ha) in Eget. congruence.
+  - (* CAS on max_id succeeds *)
+    pose proof (ti_incc _ _ Ht _ Epc) as Hz.
+    cbn [astep]. rewrite (alloc_atomic_fresh b) by (rewrite (li_clen _ _ _ HL); assumption).
+    cbn [snd]. rewrite (LIr_join_gen _ _ _ _ HL), (li_max _ _ _ HL). reflexivity.
+  - (* return *)
+    rewrite (ale_join_gen _ _ _ Ha). reflexivity.
+  - (* killed.add_atomic *)
+    destruct (ti_k _ _ Ht _ _ Epc) as [_ [Hg Hal]].
+    cbn [astep]. unfold a_kill_atomic. rewrite (alive_transfer _ _ _ _ Ha HL Hg), Hal. reflexivity.
+Qed.
+
+Definition RI (c : config) : Prop :=
+  forall k t, nth_error (threads c) k = Some t -> thread_results k (lin c) = tres t.
+
+Lemma RI_step c n : GI c -> LI c -> RI c -> RI (step_thread c n).
+Proof.
+  intros [Hg Ht Hi] HL HRI.
+  destruct (step_thread_cases c n) as [[-> _]|[l1 [t [l2 [a' [q' [t' [ev [Hl [Hn [Hs ->]]]]]]]]]]]; [assumption|].
+  unfold RI in *. norm. rewrite Hl in *. rewrite Hi in Hs. clear Hi.
+  apply Forall_app in Ht. destruct Ht as [F1 F2]. inversion F2 as [|? ? Tt F3]; subst.
+  unfold LI, replay, lin_ops in HL.
+  pose proof (tstep_res _ _ _ _ _ _ _ _ _ Hg Tt Hs HL) as Hres.
+  destruct (trun_arun (lin c) a0) as [Efst _]. rewrite <- Efst in Hres.
+  intros k tk Hk.
+  assert (thread_results k (match ev with Some o => lin c ++ [(length l1, o)] | None => lin c end) =
+          thread_results k (lin c) ++
+          (if Nat.eqb (length l1) k then match ev with Some o => [snd (astep true (fst (trun a0 (lin c))) o)] | None => [] end
+           else [])) as E.
+  { destruct ev as [o|]; [apply thread_results_snoc|]. destruct (Nat.eqb (length l1) k); rewrite app_nil_r; reflexivity. }
+  rewrite E. clear E.
+  destruct (Nat.lt_total k (length l1)) as [Hlt|[Heq|Hgt]].
+  - rewrite nth_error_app1 in Hk by assumption.
+    rewrite (HRI k tk) by (rewrite nth_error_app1 by assumption; assumption).
+    destruct (Nat.eqb_spec (length l1) k); [lia|]. apply app_nil_r.
+  - subst k. rewrite nth_error_app2 in Hk by lia. rewrite Nat.sub_diag in Hk. cbn [nth_error] in Hk.
+    inversion Hk; subst tk. rewrite Nat.eqb_refl.
+    rewrite (HRI (length l1) t) by (rewrite nth_error_app2 by lia; rewrite Nat.sub_diag; reflexivity).
+    symmetry. exact Hres.
+  - rewrite nth_error_app2 in Hk by lia.
+    rewrite (HRI k tk).
+    + destruct (Nat.eqb_spec (length l1) k); [lia|]. apply app_nil_r.
+    + rewrite nth_error_app2 by lia. destruct (k - length l1)%nat as [|j] eqn:Ej; [lia|]. exact Hk.
+Qed.
+
+Lemma RI_new progs : RI (c_new a0 I progs).
+Proof.
+  unfold RI, c_new. norm. intros k t Hk. apply nth_error_In in Hk. apply in_map_iff in Hk.
+  destruct Hk as [p [<- _]]. reflexivity.
+Qed.
+
+Lemma RI_run s : forall c, GI c -> LI c -> RI c -> RI (run c s).
+Proof.
+  induction s as [|n s IH]; intros c Hc HL HRI; cbn [run]; [assumption|].
+  apply IH; [apply GI_step | apply LI_step | apply RI_step]; assumption.
+Qed.
+
+(* in every reachable state: the results the sequential replay returns to
+   thread k are the allocator results thread k has received, followed by the
+   handle of its creation that has linearised but not returned yet (if any);
+   in particular, when the thread has finished, exactly its results *)
+Theorem results_linearisable progs s k t :
+  nth_error (threads (run (c_new a0 I progs) s)) k = Some t ->
+  thread_results k (lin (run (c_new a0 I progs) s)) = flat_map lin_out (outs t) ++ pending_of (tpc t).
+Proof.
+  intros Hk. apply (RI_run s (c_new a0 I progs)); [apply GI_new | apply LI_new | apply RI_new | assumption].
+Qed.
+
 End Phase.
 
 (* ------------------------------------------------------------------ *)
@@ -1150,6 +1317,16 @@ Theorem conc_final_state_refines s :
   R (sh (run c0 s)) (fst (lrun s0 (with_choices ops outs))) /\
   LInv (fst (lrun s0 (with_choices ops outs))).
 Proof. apply (final_state_refines a0 s0 I HR HL HI' progs s). Qed.
+
+(* (d), results: linearisability *)
+Theorem conc_results_linearisable s k t :
+  nth_error (threads (run c0 s)) k = Some t ->
+  thread_results a0 k (lin (run c0 s)) = flat_map lin_out (outs t) ++ pending_of a0 (tpc t) /\
+  (finished t = true -> thread_results a0 k (lin (run c0 s)) = flat_map lin_out (outs t)).
+Proof.
+  intros Hk. pose proof (results_linearisable a0 I H0 HI' progs s k t Hk) as E. split; [exact E|].
+  intros Hf. unfold c0. rewrite E. destruct (finished_prog t Hf) as [_ ->]. apply app_nil_r.
+Qed.
 
 (* (e) *)
 Theorem conc_queue_interleaving s :
